@@ -108,11 +108,13 @@ proof fn lemma_visited_bound(visited: Set<int>, occupied: Set<int>, size: int)
 const STRIDE_HASH_BITS : u8 = 7 ;
 
 
+
 exec const STRIDE_MASK : u64 ensures STRIDE_MASK == 127 {
 proof {
 assert ( ( 1u64 << 7u64 ) - 1 == 127 ) by ( bit_vector ) ;
 }
 ( 1 << STRIDE_HASH_BITS ) - 1 }
+
 
 
 
@@ -156,6 +158,7 @@ assert ( l < 64 ==> ( ( key >> l ) & 127 ) <= 127 ) by ( bit_vector ) ;
 assert ( ( key >> ( lg_size as u64 ) ) == ( key >> lg_size ) ) ;
 }
 ( 2 * ( ( key >> ( lg_size ) ) & STRIDE_MASK ) + 1 ) as usize }
+
 
 
 
@@ -280,6 +283,7 @@ j = j + 1 ;
 
 
 
+
 pub assume_specification<T: Ord> [ core::cmp::min::<T> ] (a: T, b: T) -> (r: T)
   ensures T::obeys_cmp_spec() ==> (r == (if a.cmp_spec(&b) == core::cmp::Ordering::Greater { b } else { a }));
 // ================= table-level specs =================
@@ -386,7 +390,9 @@ proof fn lemma_probe_in_range(p0: int, s: int, t: int, len: int)
 const MAX_THETA : u64 = i64 :: MAX as u64 ;
 
 
+
 const MIN_LG_K : u8 = 5 ;
+
 
 
 // initial theta for a sampling probability: float code, by contract (KX leaf); NOTE: nothing says r > 0 for p in (0,1]: p = 1e-20 gives 0
@@ -394,6 +400,13 @@ uninterp spec fn theta0_spec(p: f32) -> u64;
 #[verifier::external_body]
 fn starting_theta_from_sampling_probability(sampling_probability: f32) -> (r: u64)
   ensures r == theta0_spec(sampling_probability), r <= MAX_THETA
+{ unimplemented!() }
+
+// hash/mod.rs compute_seed_hash: a hash leaf (C16); it asserts the result is non-zero
+uninterp spec fn seed_hash_spec(seed: u64) -> u16;
+#[verifier::external_body]
+fn compute_seed_hash(seed: u64) -> (r: u16)
+  ensures r == seed_hash_spec(seed)
 { unimplemented!() }
 
 // the generic hashing (MurmurHash3X64128 over T: Hash) is a leaf of C16; only the screening tail is verified here
@@ -426,6 +439,7 @@ assert ( f * ( d / f ) == ( d / f ) * f ) by ( nonlinear_arith ) ;
 }
 ( ( lg_target - lg_min ) % lg_resize_factor ) + lg_min }
 }
+
 
 spec fn init_lg(lg_nom: u8, rf: ResizeFactor) -> u8 { ssm_spec((lg_nom + 1) as u8, 5, rf.lg()) }
 spec fn same_config(a: ThetaHashTable, b: ThetaHashTable) -> bool {
@@ -469,6 +483,7 @@ struct ThetaHashTable {
 lg_cur_size : u8 , lg_nom_size : u8 , lg_max_size : u8 , resize_factor : ResizeFactor , sampling_probability : f32 , hash_seed : u64 , theta : u64 , entries : Vec < u64 > , num_entries : usize , }
 
 
+
 #[derive(Clone, Copy)]
 enum ResizeFactor { X1, X2, X4, X8 }
 impl ResizeFactor {
@@ -476,6 +491,7 @@ impl ResizeFactor {
 match self {
 ResizeFactor :: X1 => 0 , ResizeFactor :: X2 => 1 , ResizeFactor :: X4 => 2 , ResizeFactor :: X8 => 3 , }
 }
+
 
     spec fn lg(self) -> u8 { match self { ResizeFactor::X1 => 0u8, ResizeFactor::X2 => 1u8, ResizeFactor::X4 => 2u8, ResizeFactor::X8 => 3u8 } }
 }
@@ -534,6 +550,7 @@ impl ThetaHashTable {
 Some ( idx ) => idx < self . entries @ . len ( ) && ( self . entries @ [ idx as int ] == 0 || self . entries @ [ idx as int ] == key ) && exists | j : int | 0 <= j < self . entries @ . len ( ) && idx == probe_at ( home ( key , self . entries @ . len ( ) as int ) , stride_spec ( key , self . lg_cur_size ) , j , self . entries @ . len ( ) as int ) && # [ trigger ] path_clear ( self . entries @ , key , home ( key , self . entries @ . len ( ) as int ) , stride_spec ( key , self . lg_cur_size ) , j ) , None => self . entries @ . len ( ) == 0 || ( forall | i : int | 0 <= i < self . entries @ . len ( ) ==> self . entries @ [ i ] != 0 && self . entries @ [ i ] != key ) , }
 {
 find_in_entries ( & self . entries , key , self . lg_cur_size ) }
+
 
 
 
@@ -668,6 +685,7 @@ let t = choose | t : int | 0 <= t < es . len ( ) && es [ t ] == c ;
 lemma_resize_cap ( old ( self ) . lg_cur_size , new_lg_size , self . lg_nom_size ) ;
 }
 }
+
 
 
 
@@ -819,6 +837,7 @@ assert ( vals ( self . entries @ ) . contains ( c ) ) ;
 
 
 
+
     fn try_insert ( & mut self , hash : u64 ) -> ( r : bool ) requires old ( self ) . wf ( ) , hash < old ( self ) . theta ensures final ( self ) . wf ( ) , same_config ( * final ( self ) , * old ( self ) ) ,
 /*@C04.insert.theta*/ 0 < final ( self ) . theta <= old ( self ) . theta , hash == 0 ==> ! r && final ( self ) . entries @ == old ( self ) . entries @ && final ( self ) . theta == old ( self ) . theta && final ( self ) . num_entries == old ( self ) . num_entries ,
 /*@C04.insert.new*/ hash != 0 ==> r == ! holds ( old ( self ) . entries @ , hash ) ,
@@ -917,6 +936,7 @@ true }
 
 
 
+
     fn new ( lg_nom_size : u8 , resize_factor : ResizeFactor , sampling_probability : f32 , hash_seed : u64 , ) -> ( r : Self ) requires 5 <= lg_nom_size <= 26 ensures
 /*@C04.new.wf*/ r . wf ( ) ,
 /*@C04.new.initial*/ r . is_initial ( ) , r . lg_nom_size == lg_nom_size , r . resize_factor == resize_factor , r . sampling_probability == sampling_probability , r . hash_seed == hash_seed ,
@@ -942,6 +962,7 @@ lg_cur_size , lg_nom_size , lg_max_size , resize_factor , sampling_probability ,
 }
 
 
+
     fn hash_and_screen < T : Hash > ( & mut self , value : T ) -> ( r : u64 ) ensures * final ( self ) == * old ( self ) ,
 /*@C04.screen*/ r == ( if ( hash_spec ( old ( self ) . hash_seed , value ) >> 1 ) < old ( self ) . theta {
 hash_spec ( old ( self ) . hash_seed , value ) >> 1 }
@@ -954,6 +975,7 @@ if hash >= self . theta {
 return 0 ;
 }
 hash }
+
 
 
     fn trim ( & mut self ) requires old ( self ) . wf ( ) ensures final ( self ) . wf ( ) , same_config ( * final ( self ) , * old ( self ) ) ,
@@ -983,6 +1005,7 @@ self . rebuild ( ) ;
 }
 
 
+
     fn reset ( & mut self ) requires old ( self ) . wf ( ) ensures final ( self ) . wf ( ) , same_config ( * final ( self ) , * old ( self ) ) ,
 /*@C04.reset.initial*/ final ( self ) . is_initial ( ) ,
 /*@C04.reset.empty*/ forall | c : u64 | ! vals ( final ( self ) . entries @ ) . contains ( c ) , {
@@ -1005,6 +1028,7 @@ lemma_empty_table_ok ( self . entries @ , self . lg_cur_size ) ;
 }
 
 
+
     fn num_entries ( & self ) -> ( r : usize ) ensures r == self . num_entries ,
 /*@C18.theta.load*/ self . wf ( ) ==> r <= max_load ( self . lg_nom_size ) , {
 proof {
@@ -1015,8 +1039,10 @@ lemma_cap_le_max_load ( self . lg_cur_size , self . lg_nom_size ) ;
 self . num_entries }
 
 
+
     fn theta ( & self ) -> ( r : u64 ) ensures r == self . theta {
 self . theta }
+
 
 
     fn is_empty ( & self ) -> ( r : bool ) ensures r == ( self . num_entries == 0 ) ,
@@ -1042,8 +1068,14 @@ assert ( vals ( es ) . contains ( es [ i ] ) ) ;
 self . num_entries == 0 }
 
 
+
+    fn seed_hash ( & self ) -> ( r : u16 ) ensures r == seed_hash_spec ( self . hash_seed ) {
+compute_seed_hash ( self . hash_seed ) }
+
+
     fn lg_nom_size ( & self ) -> ( r : u8 ) ensures r == self . lg_nom_size {
 self . lg_nom_size }
+
 
 }
 
